@@ -436,4 +436,4 @@ def run(ctx):
             'TerminalDevice._exec_print (reads only its arguments, writes '
             'only via impl.terminal_print), and sibling agreement of the '
             'line-end guards of the plain and USING branches. Layout values '
-            'are not decided.')
+            'are not decided. Also: the plain branch of _exec_print interpreted on all short item sequences (strings, commas, semicolons) prints what the statement means; gen_print_stmt hands over one entry per item.')
